@@ -89,6 +89,9 @@ def gen_task(job):
                        externals=sorted(getattr(it, "used_externals", set())))
             return out
         contract = task.contract or P.contracts[P.index.lookup(task.target).fq]
+        import pyvc.interp as _interp
+        budget = 1500 if os.environ.get("VERIF_TIER") == "thorough" else 300
+        _interp.GEN_DEADLINE[0], _interp.GEN_DEADLINE[1] = time.time() + budget, budget
         extra = dict(task.opts.pop("extra_contracts", None) or {})
         if task.contract is not None:
             extra[P.index.lookup(task.target).fq] = task.contract
@@ -123,6 +126,7 @@ def main(argv=None):
     args = ap.parse_args(argv)
     pid = args.pid
     tier = args.tier if args.tier in ("quick", "thorough") else "quick"
+    os.environ["VERIF_TIER"] = tier       # read by the workers (generation budget per task)
     seed = int(os.environ.get("VERIF_SEED", "0") or 0)
     t_start = time.time()
     if args.replay:
@@ -151,15 +155,23 @@ def main(argv=None):
         gens = pool.map(gen_task, [(pid, i) for i in tasks], chunksize=1)
         errors = [g for g in gens if g.get("error")]
         jobs, meta = [], []
+        # the solving phase of one check is bounded as a whole (an edited body can produce a thousand string obligations that each run into their budget):
+        # obligations not reached by then stay `unknown` -- undecided, never a verdict
+        solve_deadline = time.time() + (600 if tier == "quick" else 2400)
         for g in gens:
             for o in g["obligations"]:
                 idx = len(jobs)
-                jobs.append((idx, o["qf"], o["full"], o["trivial"], timeout_ms, True, both and o["expect"] == "unsat", o["expect"], o.get("refute")))
+                jobs.append((idx, o["qf"], o["full"], o["trivial"], timeout_ms, True, both and o["expect"] == "unsat", o["expect"], o.get("refute"), solve_deadline))
                 meta.append(dict(task=g.get("task", "?"), name=o["name"], kind=o["kind"], func=o["func"], line=o["line"],
                                  expect=o["expect"], decisions=o["decisions"], note=o["note"],
                                  size=len((o["full"][1] if isinstance(o["full"], tuple) else o["full"]) or "")))
         from pyvc.solve import solve_one
-        results = pool.map(solve_one, jobs, chunksize=1) if jobs else []
+        # tasks with few obligations first: a task whose edited body explodes into a thousand slow obligations must not starve the others of the budget
+        per_task = {}
+        for m_ in meta:
+            per_task[m_["task"]] = per_task.get(m_["task"], 0) + 1
+        order = sorted(range(len(jobs)), key=lambda k: (per_task[meta[k]["task"]], k))
+        results = pool.map(solve_one, [jobs[k] for k in order], chunksize=1) if jobs else []
     for r in results:
         meta[r["idx"]].update(verdict=r["verdict"], backend=r["backend"], stage=r["stage"], time_s=r["time_s"],
                               model=r.get("model"), reason=r.get("reason", ""), cvc5=r.get("cvc5"))
